@@ -695,3 +695,41 @@ def rechunk_grid(ctx: Ctx) -> None:
     calls = [unparse(n.func) for n in ast.walk(sc.node) if isinstance(n, ast.Call)]
     ok = "np.union1d" in calls and calls.count("np.arange") >= 2 and "np.diff" in calls
     ctx.ob(sc, None, ok, "split_chunksizes = differences of the union of both grids' boundaries", sel="rechunk:union-of-boundaries")
+
+
+@rule("PICKLE-PAIR-1", props=["C06"], floor=3)
+def pickle_pair(ctx: Ctx) -> None:
+    """process executor: every submission ships the function, the input and *this call's*
+    keyword arguments in serialised form, and the worker deserialises exactly those three"""
+    repo = ctx.repo
+    outer = repo.get(f"{A.RT_LOCAL}.processes_create_futures_func")
+    inner = outer.children.get("create_futures_func")
+    ctx.need(inner is not None, "process future factory not found")
+    fl, cfg = flow_of(repo, inner), cfg_of(inner)
+    subs = [c for c in inner.own_nodes() if isinstance(c, ast.Call) and isinstance(c.func, ast.Attribute) and c.func.attr == "submit"]
+    ctx.need(subs, "no submit() in the process future factory")
+    for c in subs:
+        at = cfg.node_of(c)
+        ok_fn = bool(c.args) and f"{A.RT_LOCAL}.unpickle_and_call" in {t.qual for t in repo.resolve_value(c.args[0], inner, inner.module)}
+        ctx.ob(inner, c, ok_fn, "tasks are submitted through unpickle_and_call", sel="pickle:entry")
+        pos = c.args[1:]
+        ok_pos = len(pos) == 2
+        ctx.ob(inner, c, ok_pos, "the serialised function and the serialised input are passed", sel="pickle:positional")
+        for k in [k for k in c.keywords if k.arg is None]:
+            t = fl.taint(k.value, at)
+            own = (inner.kwarg or "kwargs") in t
+            foreign = sorted(x for x in t if x.startswith("free:") and x not in (f"free:{p}" for p in outer.params))
+            ok = own and not foreign
+            ctx.ob(
+                inner,
+                c,
+                ok,
+                "the keyword arguments shipped with a task are serialised from this call's own kwargs"
+                + ("" if ok else f" — they also come from state shared between calls ({foreign}): a task of one operation can be shipped with another operation's function/config"),
+                sel="pickle:kwargs-own",
+            )
+    u = repo.get(f"{A.RT_LOCAL}.unpickle_and_call")
+    loads = [x for x in ast.walk(u.node) if isinstance(x, ast.Call) and attr_chain(x.func) == "cloudpickle.loads"]
+    rets = [r for r in u.own_nodes() if isinstance(r, ast.Return)]
+    ok = len(loads) >= 3 and len(rets) == 1 and isinstance(rets[0].value, ast.Call) and any(k.arg is None for k in rets[0].value.keywords)
+    ctx.ob(u, None, ok, "the worker deserialises function, input and every keyword argument, then calls f(input, **kwargs)", sel="pickle:worker")
